@@ -168,13 +168,14 @@ var expect = map[string][2]int{}
 
 func main() {
 	run := vr.New("C16", "model_checking")
-	run.Rule("explicit enumeration of all server-message histories up to depth H over a 24-event alphabet (service constructors, updates with/without handler, unknown/repeated results, unregistered and truncated bodies, containers, gzip, client-parity id, transport error frame, orderly close); each history is delivered after a first answered request and followed by a probe request; every history is executed on the real client under the scheduler for all schedules within the delay bound (D for single-event histories, D-1 for longer ones); non-trivial = the whole history was delivered")
+	run.Rule("explicit enumeration of all server-message histories up to depth H over a 24-event alphabet (service constructors, updates with/without handler, unknown/repeated results, unregistered and truncated bodies, containers, gzip, client-parity id, transport error frame, orderly close); each history is delivered after a first answered request and followed by a probe request; every history is executed on the real client under the scheduler for all schedules within the delay bound (D for single-event histories, one less per further event; quick H=2 D=2, thorough H=3 D=3); non-trivial = the whole history was delivered")
 	run.Assume("a goroutine panic is recorded as process death (fatal event) and ends the execution", "reconnect after close goes through the dial seam to the same reference server; 'same auth key' is checked by the server opening the frames of the new connection without a plain-text frame")
+	// delay bound per history length: a history of L events runs at D-(L-1) delays
 	H, D := 2, 2
 	budget := 4 * time.Minute
 	if run.Thorough() {
-		H, D = 3, 1
-		budget = 25 * time.Minute
+		H, D = 3, 3
+		budget = 40 * time.Minute
 	}
 	al := alphabet()
 	var hists [][]ev
@@ -229,12 +230,10 @@ func main() {
 	}())
 	run.Set("delay_bound", D)
 	run.Sample(map[string]any{"history": []string{"rpc_result(answered-id)", "close"}, "then": "probe request tag 2 must complete"})
-	(&sess.XSpec{Run: run, Scenarios: scs, Budget: budget, Batch: true,
+	(&sess.XSpec{Run: run, Scenarios: scs, Budget: budget, Batch: true, FreeSet: run.ID,
 		Bounds: func(sc *sess.Scenario) sched.Bounds {
-			if strings.Contains(sc.Name, " ; ") { // histories of two or more events: one delay less
-				return sched.Bounds{Preemptions: -1, Delays: D - 1, EnvDev: 0}
-			}
-			return sched.Bounds{Preemptions: -1, Delays: D, EnvDev: 0}
+			// each further event of a history costs one delay
+			return sched.Bounds{Preemptions: -1, Delays: max(D-strings.Count(sc.Name, " ; "), 0), EnvDev: 0}
 		},
 		Judge:                  judge,
 		NonTrivial:             func(x *sess.World) bool { return len(x.Srv.Queue) == 0 },
